@@ -315,6 +315,11 @@ def member_variant(rng, P: gen.Profile, fam_scn: eng.Scn, name: str) -> eng.Scn:
         s.rtc = not (rng.random() < P.p_rtc_off)
     s.cur0 = rng.choice([st.val for st in s.states]) if rng.random() < P.p_cur0 else None
     s.start = rng.choice([st.val for st in s.states]) if rng.random() < P.p_start else None
+    # this instance may be constructed without some of the listeners others use (only listeners nothing depends
+    # on: convention callbacks): the engine kind and the callback lists are per instance, not per class
+    for L in list(s.listeners_ctor):
+        if all(c.style == "conv" for c in s.cbs if c.provider == L) and rng.random() < 0.3:
+            s.listeners_ctor.remove(L)
     n = gen.gen_ops(rng, P, s, evs)
     ops = list(s.ops)
     for _ in range(rng.choice([0, 0, 1, 2])):
@@ -377,9 +382,39 @@ def gen_world(rng, P: gen.Profile, name: str) -> World:
                 w.families.append(Family(scn=scn, base=k, extra_cbs=extra,
                                          cls_name="M" if same_names and rng.random() < 0.5 else f"Sub{k}"))
     # members
+    split = None
+    if rng.random() < 0.3:
+        # one class, two instances of different *kind*: the only coroutine callbacks live on a listener that one
+        # instance is constructed with and the other is not (the engine is chosen per instance)
+        for fi, fam in enumerate(w.families):
+            if fam.base is not None:
+                continue
+            Ls = [L for L in fam.scn.listeners_ctor
+                  if all(c.style == "conv" for c in fam.scn.cbs if c.provider == L)
+                  and any(c.group not in ("cond", "unless") for c in fam.scn.cbs if c.provider == L)]
+            if Ls and not any(f.base == fi for f in w.families):
+                L = rng.choice(Ls)
+                for c in fam.scn.cbs:
+                    on_l = c.provider == L and c.group not in ("cond", "unless")
+                    c.coro = on_l
+                    c.yields = rng.randint(0, 2) if on_l else 0
+                    if c.wrap == "lazy":
+                        c.wrap = ""
+                split = (fi, L)
+                break
     for fi, fam in enumerate(w.families):
-        for j in range(rng.choice([1, 1, 2]) if fam.base is None else 1):
-            w.members.append(Member(fam=fi, scn=member_variant(rng, P, fam.scn, f"{name}-m{len(w.members)}")))
+        k = rng.choice([1, 1, 2]) if fam.base is None else 1
+        if split and split[0] == fi:
+            k = 2
+        for j in range(k):
+            ms = member_variant(rng, P, fam.scn, f"{name}-m{len(w.members)}")
+            if split and split[0] == fi:
+                L = split[1]
+                ms.listeners_ctor = [x for x in fam.scn.listeners_ctor if x != L or j == 1]
+                ms.rtc = True if ms.is_async() else ms.rtc
+                evs = sorted({e for t in ms.trans for e in t.events})
+                gen.gen_acts(rng, P, ms, evs, len(ms.ops))
+            w.members.append(Member(fam=fi, scn=ms))
     # base-first or subclass-first instantiation order is drawn by the merge below
     slots = []
     for mi, m in enumerate(w.members):
